@@ -8,6 +8,7 @@ CONSTANTS
   AllowQueryX = TRUE
   AllowSweep = TRUE
   AllowDeclare = FALSE
+  AllowDetach = FALSE
   AllowInfer = FALSE
   CopyModes = {}
   UnregisteredModes = {}
